@@ -21,21 +21,21 @@ theorem C01_step_coherent (f : String → D → V) (s : St D V) (op : Op D V) (h
     (hs : match op with
       | .mutate m => MutSound f m
       | _ => True) : Coherent f (step f s op).2 := by
-  sorry
+  exact coherent_step op h hs
 
 /-- **every read is fresh**: after *any* history of reads, in-place or reassignment edits and sound
     cache-keeping mutators, reading any key returns the value a freshly built mesh with the same data
     reports — whatever was read before, in whatever order -/
 theorem C01_read_fresh (f : String → D → V) (d : D) (ops : List (Op D V)) (hs : OpsSound f ops) (k : String) :
     (read f (run f (St.init d) ops) k).1 = f k (run f (St.init d) ops).data := by
-  sorry
+  exact read_fresh f d ops hs k
 
 /-- history independence: two histories that end with the same data answer every read identically -/
 theorem C01_history_independent (f : String → D → V) (d d' : D) (ops ops' : List (Op D V))
     (hs : OpsSound f ops) (hs' : OpsSound f ops')
     (he : (run f (St.init d) ops).data = (run f (St.init d') ops').data) (k : String) :
     (read f (run f (St.init d) ops) k).1 = (read f (run f (St.init d') ops') k).1 := by
-  sorry
+  rw [C01_read_fresh f d ops hs k, C01_read_fresh f d' ops' hs' k, he]
 
 /-- (G) the cache-keeping mutators of the current source meet their syntactic obligations: they verify
     the cache before keeping anything, do not keep topology across a winding flip, and every key they keep
